@@ -30,7 +30,7 @@ import fam_docemit
 
 ID = "C05"
 COQ_PROP = "C05"
-FAMILIES = [(fam_docparse, 700, 12000), (fam_docemit, 500, 8000)]
+FAMILIES = [(fam_docparse, 1500, 20000), (fam_docemit, 1000, 12000)]
 TECHNIQUE = ("Coq proof of the composition theorem (any chain length; `preserved` reflexive, transitive, position-wise: no swap "
              "between parameters) from per-kind round-trip laws; the ReST law is discharged from the C01 ReST theorem on its guard; "
              "the other per-kind laws and the closure of the region are validated on the real emitters and parsers: every ordered "
@@ -319,7 +319,7 @@ def region_param(rng, ks):
         text = text.rsplit(" ", 1)[0] if " " in text else text[:budget - 1]
     p["doc"] = text.rstrip(" ,.") + rng.choice([".", ".", ","])
     if dk == "none":
-        p["default"] = rng.choice([None, "```(None)```"])
+        p["default"] = rng.choice([None, "```(None)```", "None"])
     elif dk == "value":
         p["default"] = rng.choice(words) if shape == "literal" else \
             {"str": rng.choice(["mnist", "adam", "x y", "relu", "~/tfds", "5", "True", "v1", "a-b", "path/to"]),
